@@ -425,6 +425,46 @@ example : ¬ (Store.demo.define 0 "bad" (.vec 9)).WF := fun h => by
   have := h.frame_vals 0 _ rfl ("bad", .vec 9) (List.Mem.tail _ (List.Mem.tail _ (List.Mem.head _)))
   simp [Store.AllocIn, Store.demo] at this
 
+/-! ## how the expression forms use the store operations -/
+
+/-- The link between the Scheme forms and the store operations the theorems above are about:
+a variable reference is `Store.lookup` from the current frame; a `lambda` captures the current
+frame id; `(set! x e)` evaluates `e` and then is exactly `Store.set` from the current frame
+(`Void` on success, `UnboundedSymbol` and an unchanged store otherwise); an internal definition
+evaluates its expression and then is `Store.define` in the call's own frame. -/
+theorem scoping_forms (fuel : Nat) (σ : Store) (ρ : Nat) :
+    (∀ s l, evalExpr (fuel + 1) σ ρ (.sym s l) =
+      match σ.lookup ρ s with
+      | some v => (.ok v, σ)
+      | none => (.error (.unbound, l), σ)) ∧
+    (∀ lam l, evalExpr (fuel + 1) σ ρ (.lambda lam l) = (.ok (.closure lam ρ), σ)) ∧
+    (∀ x e l, evalExpr (fuel + 1) σ ρ (.assign x e l) =
+      match evalExpr fuel σ ρ e with
+      | (.error er, σ₁) => (.error er, σ₁)
+      | (.ok v, σ₁) =>
+        match σ₁.set ρ x v with
+        | (true, σ₂) => (.ok .void, σ₂)
+        | (false, σ₂) => (.error (.unbound, none), σ₂)) ∧
+    (∀ name e l ds, evalDefs (fuel + 1) σ ρ (.mk name e l :: ds) =
+      match evalExpr fuel σ ρ e with
+      | (.error er, σ₁) => (.error er, σ₁)
+      | (.ok v, σ₁) => evalDefs fuel (σ₁.define ρ name v) ρ ds) := by
+  refine ⟨fun s l => ?_, fun lam l => ?_, fun x e l => ?_, fun name e l ds => ?_⟩
+  · simp only [evalExpr]; rfl
+  · simp only [evalExpr]
+  · simp only [evalExpr]; rfl
+  · simp only [evalDefs]; rfl
+
+/-- non-vacuity: `(set! x 'new)` evaluated in frame 3 of `demo` writes frame 1's `x`, and the
+variable `x` evaluated afterwards in frame 1 (sharing) gives `new`, in frame 2 (not sharing) `1`. -/
+example : ∃ σ', evalExpr 2 Store.demo 3 (.assign "x" (.quote (.sym "new" none) none) none) = (.ok .void, σ') ∧
+    evalExpr 1 σ' 1 (.sym "x" none) = (.ok (.sym "new"), σ') ∧
+    evalExpr 1 σ' 2 (.sym "x" none) = (.ok (.num (.int 1)), σ') := by
+  refine ⟨(Store.demo.set 3 "x" (.sym "new")).2, ?_, ?_, ?_⟩
+  · simp only [evalExpr, readLiteral]; rfl
+  · rw [(scoping_forms 0 _ 1).1]; rfl
+  · rw [(scoping_forms 0 _ 2).1]; rfl
+
 /-! ## 3 and 5 at the level of the whole evaluator (mutual induction on fuel) -/
 
 /-- Every evaluator function only ever appends frames and cells, whatever the fuel and whatever
@@ -449,14 +489,41 @@ def prog : Expr :=
       [.assign "x" (.sym "a" none) none, .call (.sym "vector" none) [.sym "a" none] none]) none)
     [.prim (.int 5) none] none
 
-/-- non-vacuity (the statement has no hypothesis; this instance is not the trivial reflexive one):
-running `prog` in frame 3 of `demo` with `vector` bound in the root. `#eval` shows the run returns
-`#2`, a fresh one-element vector, in a store with 5 frames (frame 4, child of 3, binds `a ↦ 5`)
-and 3 cells, where `x` seen from frame 3 is now `5` and the root's `x` is still `1`.
-(The evaluator is defined by well-founded recursion, so closed runs are not checked by `rfl`.) -/
-example : Store.Grows (Store.demo.define 0 "vector" (.builtin .vector))
-    (evalExpr 10 (Store.demo.define 0 "vector" (.builtin .vector)) 3 prog).2 :=
-  (frames_monotone 10).1 _ 3 prog
+/-- non-vacuity (the statement has no hypothesis; this shows an instance that is not the trivial
+reflexive one): running `prog` in frame 3 of `demo` with `vector` bound in the root returns `#2`,
+a fresh one-element vector, in a store with 5 frames (frame 4, child of 3, binds `a ↦ 5`) and 3
+cells, where `x` seen from frame 3 is now `5` and the root's `x` is still `1`. -/
+example : ∃ σ', evalExpr 12 (Store.demo.define 0 "vector" (.builtin .vector)) 3 prog = (.ok (.vec 2), σ') ∧
+    Store.Grows (Store.demo.define 0 "vector" (.builtin .vector)) σ' ∧
+    σ'.frames.size = 5 ∧ σ'.vecs.size = 3 ∧ σ'.lookup 3 "x" = some (.num (.int 5)) ∧
+    σ'.lookup 0 "x" = some (.num (.int 1)) ∧ σ'.parentOf 4 = some 3 ∧
+    σ'.binding 4 "a" = some (.num (.int 5)) := by
+  let σ₁ := enter (Store.demo.define 0 "vector" (.builtin .vector))
+  let σ₃ := (((σ₁.newFrame (some 3)).2.define 4 "a" (.num (.int 5))).set 4 "x" (.num (.int 5))).2
+  have h1 : applyScheme 9 σ₁ (.mk ⟨["a"], none⟩ []
+      [.assign "x" (.sym "a" none) none, .call (.sym "vector" none) [.sym "a" none] none]) 3
+      [.num (.int 5)] = (.ok (.tailCall (.sym "vector" none) [.sym "a" none] 4), σ₃) := by
+    simp only [applyScheme, evalDefs, evalBody, evalTail, evalExpr, Lambda.formals, Lambda.defs,
+      Lambda.body, bindFixed]
+    rfl
+  have h2 : evalExpr 9 σ₃ 4 (.sym "vector" none) = (.ok (.builtin .vector), σ₃) := by
+    simp only [evalExpr]; rfl
+  have h3 : evalArgs 9 σ₃ 4 [.sym "a" none] = (.ok [.num (.int 5)], σ₃) := by
+    simp only [evalArgs, evalExpr]; rfl
+  have h4 : applyLoop 9 σ₃ (.builtin .vector) [.num (.int 5)] 3 =
+      (.ok (.vec 2), (σ₃.allocVec true [.num (.int 5)]).2) := by
+    simp only [applyLoop, procArity]; rfl
+  have h : evalExpr 12 (Store.demo.define 0 "vector" (.builtin .vector)) 3 prog =
+      (.ok (.vec 2), leave (σ₃.allocVec true [.num (.int 5)]).2) := by
+    simp only [prog, evalExpr, evalArgs, evalPrim, procArity, applyProcedure]
+    have h5 : applyLoop 10 σ₁ (.closure (.mk ⟨["a"], none⟩ []
+        [.assign "x" (.sym "a" none) none, .call (.sym "vector" none) [.sym "a" none] none]) 3)
+        [.num (.int 5)] 3 = (.ok (.vec 2), (σ₃.allocVec true [.num (.int 5)]).2) := by
+      simp only [applyLoop, procArity, h1, h2, h3, h4]; rfl
+    rw [h5]
+  refine ⟨_, h, ?_, rfl, rfl, rfl, rfl, rfl, rfl⟩
+  have := (frames_monotone 12).1 (Store.demo.define 0 "vector" (.builtin .vector)) 3 prog
+  rwa [h] at this
 
 /-- Literal vectors never change: a cell that is immutable in `σ` has exactly the same contents
 after any evaluation from `σ` (every `vector-set!` on it was rejected). Stated for `evalExpr`;
